@@ -185,6 +185,7 @@ def generate_bn(streams, tier):
             else:
                 op["xs"] = r.sample(nodes, min(len(nodes), r.randint(1, 2)))
             op["inplace"] = r.random() < 0.5
+            op["arg"] = streams.s("do_arg").randrange(6)
             if all(x in g["nodes"] for x in op["xs"]):
                 ng = g if op["inplace"] else _copy.deepcopy(g)
                 for x in op["xs"]:
@@ -698,7 +699,13 @@ def execute_bn(case, ctx):
 
             def call():
                 nonlocal new_model
-                res = model.do([L(x) for x in xs], inplace=inplace)
+                # the nodes arrive in whatever container the caller has at hand (list, tuple, set, dict keys, a one-shot iterator)
+                lst = [L(x) for x in xs]
+                how = op.get("arg", 0) % 6
+                arg = [lst, tuple(lst), set(lst), dict.fromkeys(lst).keys(), iter(lst), (y for y in lst)][how]
+                if how >= 4:
+                    ctx.probe("do_nodes_given_as_iterator")
+                res = model.do(arg, inplace=inplace)
                 if not inplace:
                     new_model = res
         elif k == "copy":
